@@ -237,6 +237,13 @@ int main(void) {
         if (l >= 0) { hx[l] = 0; rfbSetServerVersionIdentity(scr, "%s", (char *)hx); }
       } else if (!strcmp(k, "protominor")) rfbSetProtocolVersion(scr, 3, v);
       else if (!strcmp(k, "shared")) { scr->alwaysShared = v; }
+      else if (!strcmp(k, "cmap")) {
+        /* colour-mapped server format with a palette of v cells (before any client connects) */
+        int q; uint8_t *pal = (uint8_t *)calloc((size_t)(v > 0 ? v : 1) * 3, 1);
+        for (q = 0; q < v * 3; q++) pal[q] = (uint8_t)(q * 37 + 11);
+        scr->serverFormat.trueColour = FALSE;
+        scr->colourMap.count = (uint32_t)v; scr->colourMap.is16 = FALSE; scr->colourMap.data.bytes = pal;
+      }
       else if (!strcmp(k, "extscreens")) {
         ext_screens = v; scr->numberOfExtDesktopScreensHook = ext_count_hook; scr->getExtDesktopScreenHook = ext_get_hook;
       } else if (!strcmp(k, "extfail")) {
@@ -314,6 +321,13 @@ int main(void) {
     } else if (!strcmp(tok[0], "copy") && n == 7) {
       int x = atoi(tok[1]), y = atoi(tok[2]);
       rfbDoCopyRect(scr, x, y, x + atoi(tok[3]), y + atoi(tok[4]), atoi(tok[5]), atoi(tok[6]));
+    } else if (!strcmp(tok[0], "copyresize") && n == 9) {
+      /* the application copies and replaces the framebuffer back to back (no event loop in between) */
+      int x = atoi(tok[1]), y = atoi(tok[2]);
+      rfbDoCopyRect(scr, x, y, x + atoi(tok[3]), y + atoi(tok[4]), atoi(tok[5]), atoi(tok[6]));
+      do_resize(atoi(tok[7]), atoi(tok[8]));
+    } else if (!strcmp(tok[0], "setcmaps") && n == 3) {
+      rfbSetClientColourMaps(scr, atoi(tok[1]), atoi(tok[2]));
     } else if (!strcmp(tok[0], "copychk") && n == 8) {
       sraRegionPtr r = checker(atoi(tok[1]), atoi(tok[2]), atoi(tok[3]), atoi(tok[4]), atoi(tok[5]));
       rfbScheduleCopyRegion(scr, r, atoi(tok[6]), atoi(tok[7])); sraRgnDestroy(r);
